@@ -41,7 +41,8 @@ func main() {
 		"the projection compares every exported field of the returned tree with zero values omitted, so a field the model does not mention must be zero",
 	}
 	slots := gram.Slots(run)
-	cfgs := []string{"Grammar_1.cfg", "Grammar_2.cfg"}
+	// the "r" configurations use rich operands: sub-query, EXISTS, array subscript and interval atoms
+	cfgs := []string{"Grammar_1.cfg", "Grammar_2.cfg", "Grammar_1r.cfg", "Grammar_2r.cfg"}
 	if tier == "thorough" {
 		cfgs = append(cfgs, "Grammar_3.cfg")
 	}
@@ -61,7 +62,8 @@ func main() {
 	}
 	for ci, cfg := range cfgs {
 		r := core.MustTLC(core.TLCOpts{Spec: "Grammar", Cfg: cfg, Timeout: 30 * time.Minute})
-		run.AddTLC(r.Stat(fmt.Sprintf("expression trees with exactly %d operator node(s): RoundTrip (reference parser inverts the reference serialiser under every parenthesisation), ParenOnlyAdds", ci+1)))
+		run.AddTLC(r.Stat(fmt.Sprintf("expression trees (%s): RoundTrip (reference parser inverts the reference serialiser under every parenthesisation), ParenOnlyAdds", cfg)))
+		_ = ci
 		if len(r.Cases) == 0 {
 			core.Fatalf("%s printed no trees", cfg)
 		}
